@@ -1,6 +1,6 @@
 (* C13 - property theorems only. Each is closed by [exact] of a lemma of Proofs*.v. *)
-From Coq Require Import List ZArith QArith Qreals Reals Bool Znumtheory.
-From Gst Require Import lib.QAux C13.Model C13.Proofs C13.Proofs_gbb C13.Proofs_cond C13.Proofs_rule.
+From Coq Require Import List ZArith QArith Qround Qreals Reals Bool Znumtheory.
+From Gst Require Import lib.QAux lib.LinAlgQ C01.Model C02.Kriging C13.Model C13.Proofs C13.Proofs_gbb C13.Proofs_cond C13.Proofs_rule C13.Proofs_krige.
 Import ListNotations.
 Local Open Scope Q_scope.
 
@@ -114,6 +114,27 @@ Theorem C13_gibbs_in_bounds : forall (wexp alog : R -> R) (yk sk : R) (vmin vmax
 Proof. exact gibbs_in_bounds. Qed.
 Print Assumptions C13_gibbs_in_bounds.
 
+(* one site of the Gibbs sampler (update of GibbsUMulti / GibbsMMulti / GibbsUMultiMono): hard datum kept,
+   otherwise getSimulate (bound normalisation + choice between law_gaussian and the bounded draw).
+   The value lies in the interval for every generator state (any uniforms in [0,1[), any law_gaussian
+   [tgauss], for each of the five kinds of bounds: free, lower only, upper only, two-sided, hard. *)
+Definition siteR (wexp alog : R -> R) (tgauss : R -> R -> R) :=
+  gibbs_site R Rplus Rminus Rmult Rdiv Ropp Rltb Rleb Q2R Int_part wexp alog exp ln sqrt tgauss.
+Theorem C13_gibbs_site_in_interval : forall (wexp alog : R -> R) (tgauss : R -> R -> R) (yk sk : R) (vmin vmax : option R)
+  (us : list R) (v : R) (n : nat) (m : list R),
+  (0 < sk)%R -> ordered vmin vmax -> Forall u_ok us ->
+  siteR wexp alog tgauss yk sk vmin vmax us = GOk v n m ->
+  (forall l, vmin = Some l -> (l <= v)%R) /\ (forall h, vmax = Some h -> (v <= h)%R).
+Proof. exact gibbs_site_in_interval. Qed.
+Print Assumptions C13_gibbs_site_in_interval.
+
+Theorem C13_gibbs_site_draws : forall (wexp alog : R -> R) (tgauss : R -> R -> R) (yk sk : R) (vmin vmax : option R)
+  (us : list R) (v : R) (n : nat) (m : list R),
+  siteR wexp alog tgauss yk sk vmin vmax us = GOk v n m ->
+  (bounds_kind R Rminus Ropp Rltb Rleb Q2R vmin vmax = KHard -> n = 0%nat /\ vmin = Some v) /\
+  (bounds_kind R Rminus Ropp Rltb Rleb Q2R vmin vmax = KFree -> n = 2%nat).
+Proof. exact gibbs_site_draws. Qed.
+
 (* ================================ 3. conditioning ================================ *)
 Theorem C13_simrank_injective : forall nbsimu nvar i v c i' v' c',
   (0 <= i < nbsimu)%Z -> (0 <= i' < nbsimu)%Z -> (0 <= v < nvar)%Z -> (0 <= v' < nvar)%Z ->
@@ -223,12 +244,84 @@ Theorem C13_cond_exact_masked : forall nbsimu nvar icase (act : list bool) (rows
 Proof. exact cond_exact_masked. Qed.
 Print Assumptions C13_cond_exact_masked.
 
+(* --- the residual-kriging step on the kriging model of C01, with the exactness theorem of C02 --- *)
+(* kriging the simulated errors with the weights of the system returns the error of the coinciding datum *)
+Theorem C13_residual_kriging_exact : forall k o v c,
+  krige k = Some o -> (v < k_nvar k)%nat -> (c < nred k)%nat ->
+  (forall a, (a < nred k)%nat -> r_of o v a == A_of o a c) ->
+  fdot (nred k) (w_of o v) (vget (zext k)) == vget (zext k) c.
+Proof. exact residual_kriging_exact. Qed.
+Print Assumptions C13_residual_kriging_exact.
+
+(* sim_cond(x0) = sim_nc(x0) - sum_a lambda_a (sim_nc(x_a) - z_a) = z at a datum location.  One case k per simulation
+   (its data: the simulated errors of that simulation), any number of variables, any drift; the datum is sample ie
+   of the neighbourhood (= the ACTIVE samples), variable iv, with a defined value; undefined values of other
+   samples / variables suppress their equations and shift the rank [eq_rank] of this one. *)
+Theorem C13_cond_sim_exact : forall k o iv ie snc z,
+  krige k = Some o -> (iv < k_nvar k)%nat -> (ie < nech k)%nat -> flag k (eq_index k iv ie) = true ->
+  (forall a, (a < nred k)%nat -> r_of o iv a == A_of o a (eq_rank k iv ie)) ->
+  mean_of k iv == 0 ->
+  nth iv (s_z (nth_s k ie)) None = Some (snc - z) ->
+  cond_value k o iv snc == z.
+Proof. exact cond_sim_exact. Qed.
+Print Assumptions C13_cond_sim_exact.
+
+Theorem C13_undefined_not_active : forall k iv ie, (iv < k_nvar k)%nat -> (ie < nech k)%nat ->
+  nth iv (s_z (nth_s k ie)) None = None -> flag k (eq_index k iv ie) = false.
+Proof. exact undefined_not_active. Qed.
+
+(* a masked sample is not part of the neighbourhood; the datum of absolute rank i is sample (rank_active i) of it *)
+Theorem C13_masked_sample : forall (S : Type) (act : S -> bool) (all : list S) (d : S) (i : nat),
+  (i < length all)%nat -> act (nth i all d) = true ->
+  nth (rank_active act i all) (filter act all) d = nth i all d /\ (rank_active act i all < length (filter act all))%nat.
+Proof. exact @masked_sample. Qed.
+
+(* link between the list model of _simulateCalcul and the formula above.  PARTIAL: the layout of the centred data
+   vector (defined errors in loop order, then zeros) is a hypothesis, discharged by computation on every
+   correspondence case (runner kind 13) and in C13_nonvacuous_krige. *)
+Theorem C13_krig_error_is_fdot_partial : forall nbsimu nvar icase (nb : list row) (wgt : list (list Q)) isimu ivar
+      (df : Z -> list Q) (n : nat) (zx : list Q),
+  (forall jv, In jv (zrange nvar) ->
+     map (fun r => get_item r (sim_rank isimu jv icase nbsimu nvar)) nb = map Some (df jv) /\ length (df jv) = length nb) ->
+  (Z.to_nat nvar * length nb <= n)%nat -> (n <= length wgt)%nat ->
+  let ds := flat_map df (zrange nvar) in
+  (forall a, (a < length ds)%nat -> nth a zx 0 == nth a ds 0) ->
+  (forall a, (length ds <= a < n)%nat -> nth a zx 0 == 0) ->
+  exists s, krig_error nbsimu nvar icase nb wgt (isimu, ivar) = Some s /\
+            s == 0 - fdot n (fun a => nth (Z.to_nat ivar) (nth a wgt []) 0) (fun a => nth a zx 0).
+Proof. exact krig_error_is_fdot_partial. Qed.
+Print Assumptions C13_krig_error_is_fdot_partial.
+
 (* ================================ 4. facies <-> gaussians ================================ *)
 Theorem C13_facies_roundtrip : forall ext n f r y1 y2, 0 <= ext ->
   wf_node n (root_rect ext) = true -> facies_bounds ext n f = Some r ->
   strictly_inside r y1 y2 = true -> gaussian_to_facies ext n y1 y2 = f.
 Proof. exact facies_roundtrip. Qed.
 Print Assumptions C13_facies_roundtrip.
+
+(* plurigaussian conditioning: the gaussians given by the Gibbs sampler to the active datum k (strictly inside the bounds
+   of its observed facies f) are copied to the coinciding active target and the rule maps them back to f -
+   for every well-formed rule tree, every simulation rank, every selection on the data *)
+Theorem C13_pgs_facies_at_datum : forall ext n f r nbsimu icase eps2 data c (t : row) k isimu y1 y2,
+  0 <= ext -> wf_node n (root_rect ext) = true -> facies_bounds ext n f = Some r ->
+  (0 <= isimu < nbsimu)%Z -> (0 <= icase)%Z -> (nbsimu * 2 * (icase + 1) <= Z.of_nat (length t))%Z ->
+  find_close eps2 c data 0 = Some k ->
+  d_z (nth k data no_datum) = [Some y1; Some y2] ->
+  strictly_inside r y1 y2 = true ->
+  let t' := update_point_target nbsimu 2 icase eps2 data true c t in
+  exists g1 g2, get_item t' (sim_rank isimu 0 icase nbsimu 2) = Some g1 /\
+                get_item t' (sim_rank isimu 1 icase nbsimu 2) = Some g2 /\
+                gaussian_to_facies ext n g1 g2 = f.
+Proof. exact pgs_facies_at_datum. Qed.
+Print Assumptions C13_pgs_facies_at_datum.
+
+(* bi-plurigaussian: two rules, two pairs of gaussians (RuleShift uses the same tree on (Y1(x), Y1(x+shift)); RuleShadow is not modelled) *)
+Theorem C13_bipgs_roundtrip : forall ext n1 n2 f1 f2 r1 r2 y1 y2 y3 y4,
+  0 <= ext -> wf_node n1 (root_rect ext) = true -> wf_node n2 (root_rect ext) = true ->
+  facies_bounds ext n1 f1 = Some r1 -> facies_bounds ext n2 f2 = Some r2 ->
+  strictly_inside r1 y1 y2 = true -> strictly_inside r2 y3 y4 = true ->
+  (gaussian_to_facies ext n1 y1 y2, gaussian_to_facies ext n2 y3 y4) = (f1, f2).
+Proof. exact bipgs_roundtrip. Qed.
 
 (* on a threshold the closed bounds of two facies overlap: the first visited facies wins *)
 Theorem C13_facies_roundtrip_closed_refuted : exists ext n f r y1 y2,
@@ -309,4 +402,49 @@ Example C13_nonvacuous_masks :
   update_point_target 2 1 0 (1 # 1000) data true [2; 0] [Some 100; Some 200] = [Some 9; Some 9] /\
   update_point_target 2 1 0 (1 # 1000) data true [0; 0] [Some 100; Some 200] = [Some 100; Some 200] /\
   update_point_target 2 1 0 (1 # 1000) data false [2; 0] [Some 100; Some 200] = [Some 100; Some 200].
+Proof. vm_compute. repeat split; reflexivity. Qed.
+
+(* the five kinds of bounds, on the rational instance *)
+Example C13_nonvacuous_kinds :
+  let kind := bounds_kind Q Qminus Qopp qltb qleb (fun q => q) in
+  kind None None = KFree /\ kind (Some (1#2)) None = KLower /\ kind None (Some (-(3))) = KUpper /\
+  kind (Some (-(1))) (Some 2) = KTwo /\ kind (Some (7#4)) (Some (7#4)) = KHard /\
+  gibbs_site Q Qplus Qminus Qmult Qdiv Qopp qltb qleb (fun q => q) Qfloor (fun x => x) (fun x => x) (fun x => x) (fun x => x) (fun x => x)
+             (fun a b => a + b) (1#3) 2 (Some (7#4)) (Some (7#4)) [] = GOk (7#4) 0 [] /\
+  gibbs_site Q Qplus Qminus Qmult Qdiv Qopp qltb qleb (fun q => q) Qfloor (fun x => x) (fun x => x) (fun x => x) (fun x => x) (fun x => x)
+             (fun a b => a + b) 1 2 None None [1#4; 1#2] = GOk (1 + 2 * ((1#4) + (1#2))) 2 [].
+Proof. vm_compute. repeat split; reflexivity. Qed.
+
+(* residual kriging on a concrete ordinary-kriging case: three samples, the second one undefined (its equation is
+   suppressed: the datum of sample 2 has rank 1 in the system), target on sample 2.  Simulated errors 10-7 and 6-5. *)
+Definition ex_krige : kcase :=
+  let m (a : Q) : mat := [[a]] in
+  {| k_nvar := 1; k_monos := [[]]; k_nfex := 0;
+     k_samples := [ {| s_coord := [Some 0]; s_z := [Some (10 - 7)]; s_verr := []; s_fext := [] |};
+                    {| s_coord := [Some 1]; s_z := [None]; s_verr := []; s_fext := [] |};
+                    {| s_coord := [Some 3]; s_z := [Some (6 - 5)]; s_verr := []; s_fext := [] |} ];
+     k_means := [0]; k_tcoord := [3]; k_tfext := []; k_flag_verr := false;
+     k_clhs := [ [m 4]; [m 2; m 4]; [m (1#2); m 1; m 4] ];
+     k_crhs := [ [m (1#2)]; [m 1]; [m 4] ];
+     k_c00 := m 4 |}.
+Example C13_nonvacuous_krige :
+  match krige ex_krige with
+  | Some o => flag ex_krige (eq_index ex_krige 0%nat 1%nat) = false /\ flag ex_krige (eq_index ex_krige 0%nat 2%nat) = true /\
+              eq_rank ex_krige 0%nat 2%nat = 1%nat /\ nred ex_krige = 3%nat /\
+              forallb (fun a => qeqb (r_of o O a) (A_of o a 1%nat)) (seq 0 3) = true /\
+              qeqb (mean_of ex_krige 0%nat) 0 = true /\
+              qeqb (cond_value ex_krige o 0%nat 6) 5 = true /\
+              map Qred (zext ex_krige) = [3; 1; 0]
+  | None => False
+  end.
+Proof. vm_compute. repeat split; reflexivity. Qed.
+
+(* PGS conditioning: first datum masked, target on the third datum whose gaussians (-2, 1) lie in facies 2 of S(T(F1,F2),F3) *)
+Example C13_nonvacuous_pgs :
+  let n := Split true (-(1#2)) (Split false (1#4) (Leaf 1) (Leaf 2)) (Leaf 3) in
+  let data := [mkDatum false [0; 0] [Some 5; Some 5]; mkDatum true [1; 0] [Some 3; Some 0]; mkDatum true [2; 0] [Some (-(2)); Some 1]] in
+  let t' := update_point_target 2 2 0 (1 # 1000) data true [2; 0] [Some 9; Some 9; Some 9; Some 9] in
+  find_close (1 # 1000) [2; 0] data 0 = Some 2%nat /\
+  t' = [Some (-(2)); Some (-(2)); Some 1; Some 1] /\
+  gaussian_to_facies 10 n (-(2)) 1 = 2%Z /\ gaussian_to_facies 10 n 3 0 = 3%Z.
 Proof. vm_compute. repeat split; reflexivity. Qed.
